@@ -138,11 +138,20 @@ def wire_index(p):
 
 
 def check_join_inputs(p, case, join='K'):
-    """The invariant. Returns (violation message, signature) or None."""
+    """The invariant. Returns the list of (violation message, signature) found in this history (at most one per delivered set)."""
     uid2pub, pubtopics = wire_index(p)
     brs = case['branches']
     subs = {f'B{i}': b['sub'] for i, b in enumerate(brs)}
+    found = []
     for rec in p.process_calls(join):
+        v = _check_set(rec, uid2pub, pubtopics, subs, case)
+        if v is not None:
+            found.append(v)
+    return found
+
+
+def _check_set(rec, uid2pub, pubtopics, subs, case):
+    if True:
         by_src = {}
         for topic, pv in rec['in'].items():
             if pv is None or pv.get('uid') is None:
@@ -204,7 +213,11 @@ def run_case(case):
             calls = p.process_calls('K')
             return bool(calls) and any(pv and pv.get('seq') == n - 1 for pv in calls[-1]['in'].values()) and p.world.now > calls[-1]['t'] + 300_000_000
         p.run(12_000, stop=done)
-        bad_ = check_join_inputs(p, case)
+        found = check_join_inputs(p, case)
+        # a listed known finding must not hide a different violation in the same history
+        from vlib import common
+        known, _ = common.load_known('C01')
+        bad_ = next((v for v in found if common.matches_known(known, v[1]) is None), found[0] if found else None)
         kcalls = p.process_calls('K')
         unexpected = [u for u in p.unexpected()]
         raised = [(k, e) for k, e in p.ends.items() if e['how'] == 'raised' and not (e.get('exc') or '').startswith('SystemExit')]
